@@ -195,7 +195,7 @@ fn short(path: &Path) -> String {
 /// Called immediately before a mutating I/O operation.
 ///
 /// kinds: `wal_write` `wal_sync` `tmp_create` `tmp_write` `tmp_sync` `rename`
-///        `page_write` `set_len` `pager_sync`
+///        `page_write` `set_len` `pager_sync` `wal_trunc`
 pub fn step(kind: &'static str, file: &Path, offset: u64, len: u64) -> io::Result<()> {
     let mut s = lock();
     if !s.enabled {
@@ -227,7 +227,7 @@ pub fn step(kind: &'static str, file: &Path, offset: u64, len: u64) -> io::Resul
                 let pre = read_range(file, offset, len);
                 s.journal.push(Undo::Write { file: file.to_path_buf(), offset, len, pre, old_len });
             }
-            "set_len" => {
+            "set_len" | "wal_trunc" => {
                 let old_len = file_len(file);
                 s.journal.push(Undo::Len { file: file.to_path_buf(), old_len, new_len: offset });
             }
